@@ -25,6 +25,7 @@ import (
 	"fmt"
 	"os"
 	"path/filepath"
+	"sort"
 	"strings"
 
 	"github.com/tsawler/tabula"
@@ -38,9 +39,9 @@ import (
 func main() { harness.Main("C11", "exploration", run) }
 
 func run(e *harness.Env) {
-	e.Rule = "full product of pages P in 1..4 x header {none, same on all pages, odd/even, different on every page, same + unique sub-line sharing its prefix, 'Section n Overview', running lines identical on every page that contain one number / two adjacent numbers (year range, version) / two distant numbers / a page's own number, in the top band and (with a digit-free one) in the bottom band, a marginal line drawn twice on one page (shadow copy 1.5 pt off; unique per page / running; top and bottom); part (B) runs these thirteen kinds on Letter pages x body {unique, numeric, numeric 80 pt from either edge}} " +
+	e.Rule = "full product of pages P in 1..4 x header {none, same on all pages, odd/even, different on every page, same + unique sub-line sharing its prefix, 'Section n Overview', running lines identical on every page that contain one number / two adjacent numbers (year range, version) / two distant numbers / a page's own number, in the top band and (with a digit-free one) in the bottom band, a marginal line drawn twice on one page (shadow copy 1.5 pt off; unique per page / running; top and bottom), two different running items side by side in one band (left + right; top and bottom); part (B) runs these fifteen kinds on Letter pages x body {unique, numeric, numeric 80 pt from either edge}} " +
 		"+ sub-space 'running line absent from some pages' {title page without the running header, a line on the first two pages only} x P in 2..6 x 3 page-number settings x body {unique, numeric} x every single page and pair; " +
-		"x running page number {none, or style n | Page n | n of N | - n - (thorough: + Page n of N | n/N | p. n | pg n) printed in the bottom or top band} " +
+		"x running page number {none, or style n | Page n | n of N | - n - (thorough: + Page n of N | n/N | p. n | pg n) printed in the bottom or top band; + 16 letter-case variants of the documented label styles (PAGE n, page n, PaGe n, n OF N, Pg. n, P.n ...), each in one band, x header {none, same} x body {unique, numeric}} " +
 		"x body {unique, a line repeated at one body position, the running header's text at a body position, numeric, numeric 72/80/101 pt from the bottom or top edge, a repeated line inside the top / bottom band on one page only, " +
 		"the same text inside the bottom band of every page at positions 13 pt apart}; (A) fragment sets x page size {Letter, A4, mixed} x fragment order {top-down, bottom-up} through Detect + FilterFragments on every page (exact attribution by fragment id), the same sequence a second time on the same page data, and the per-page loop Analyzer.AnalyzeWithHeaderFooterFiltering(pages, i); after every call the caller's fragment slices must equal a deep copy taken before; " +
 		"(B) PDFs x page size {Letter, mixed} x requested pages {all, each single page, each pair} x {ExcludeHeaders, ExcludeFooters, ExcludeHeadersAndFooters} x {Text, Lines, Paragraphs, ReadingOrder, Blocks, Analyze, Document, ToMarkdown}, " +
@@ -124,6 +125,10 @@ func fragOf(l lline) text.TextFragment {
 // inSpace says whether (P, hdr, pn, body, size) belongs to the enumerated product: the general kinds run for
 // P in 1..4; the "running line absent from some pages" kinds form their own sub-space with P in 2..6.
 func inSpace(P int, hdr string, pn pnKind, body bodyKind, size string) bool {
+	if pn.ext {
+		// letter-case variants of the page-number labels: with and without a running header, plain and numeric body
+		return P <= 4 && (hdr == "none" || hdr == "same") && (body.name == "unique" || body.name == "numeric") && size != "a4"
+	}
 	if !partialHdr(hdr) {
 		return P <= 4
 	}
@@ -269,7 +274,7 @@ func checkFragments(d *ldoc, order string) (sig, detail, outcome string) {
 					}
 					flag(stem, l.class, fmt.Sprintf("round %d page %d: %q at y=%.1f (band side %q, repeated on another page=%v, page-number pattern=%v) was deleted", round, p+1, l.text, l.y, d.side(l), d.repeated(l), isPagePattern(l.text)))
 				case kept[l.id] && must:
-					flag("kept-"+mustName(l.class), l.class, fmt.Sprintf("round %d page %d: %q at y=%.1f is still present", round, p+1, l.text, l.y))
+					flag(keptStem, l.class, mustName(l.class)+": "+fmt.Sprintf("round %d page %d: %q at y=%.1f is still present", round, p+1, l.text, l.y))
 				case !kept[l.id]:
 					removed[l.class] = true
 				case may:
@@ -295,7 +300,7 @@ func checkFragments(d *ldoc, order string) (sig, detail, outcome string) {
 		for _, el := range got.Elements {
 			F = append(F, strings.Fields(el.Text)...)
 		}
-		if sg, dt, _ := judgeTokens(d, "both", map[int]bool{p: true}, U, F, nil); sg != "" {
+		if sg, dt, _ := judgeTokens(d, "both", map[int]bool{p: true}, U, F, nil, true); sg != "" {
 			return "per-page-loop:" + sg, fmt.Sprintf("AnalyzeWithHeaderFooterFiltering(pages, %d): %s", p, dt), ""
 		}
 	}
@@ -305,25 +310,37 @@ func checkFragments(d *ldoc, order string) (sig, detail, outcome string) {
 func mustName(class string) string {
 	switch class {
 	case "pagenum":
-		return "page-number"
+		return "running page number"
 	case "ftr-same":
-		return "running-footer"
+		return "running footer line"
 	}
-	return "running-header"
+	return "running header line"
 }
 
 // badSig builds one stable signature from the violated clauses: the first stem in a fixed priority order plus the
 // classes of the offending lines (classes are a closed alphabet, not varying data).
+// keptStem is the one signature of clause 4 (a running line or running page number is still present). It carries no
+// class: which of two running items of one band survives can depend on tabula's own map iteration order (regions are
+// collected from a map and sorted by confidence only), and the signature of a case has to be stable across runs.
+const keptStem = "kept-repeated-marginal-line"
+
+// badSig builds one stable signature from the violated clauses: the first stem in a fixed priority order plus the
+// classes of the offending lines (classes are a closed alphabet, not varying data).
 func badSig(bad map[string]map[string]bool) string {
-	for _, stem := range []string{"changed-without-repetition", "deleted-outside-band", "deleted-unrepeated-marginal", "deleted-unrepeated-line", "kept-running-header", "kept-running-footer", "kept-page-number", "selection-dependent"} {
+	for _, stem := range []string{"changed-without-repetition", "deleted-outside-band", "deleted-unrepeated-marginal", "deleted-unrepeated-line", keptStem, "selection-dependent"} {
 		if c, ok := bad[stem]; ok {
+			if stem == keptStem {
+				return stem
+			}
 			return stem + ":" + joinSorted(c)
 		}
 	}
-	for stem, c := range bad {
-		return stem + ":" + joinSorted(c)
+	var stems []string
+	for stem := range bad {
+		stems = append(stems, stem)
 	}
-	return "bad"
+	sort.Strings(stems)
+	return stems[0]
 }
 
 func fragList(fs []text.TextFragment) string {
@@ -498,6 +515,9 @@ func partB(e *harness.Env) {
 									if extendedHdr(hdr) && !inExtended(e.Thorough(), pn, body, size) {
 										continue
 									}
+									if pn.ext && (size != "letter" || !e.Thorough() && body.name != "unique") {
+										continue
+									}
 									if !e.Thorough() && !partialHdr(hdr) && !inQuick(P, body, size, sub, mode, api.name) {
 										continue
 									}
@@ -657,7 +677,7 @@ func checkPDF(d *ldoc, path string, sub []int, mode string, api apiFn) (sig, det
 			return r.u, r.f, true
 		}
 	}
-	return judgeTokens(d, mode, req, U, F, ref)
+	return judgeTokens(d, mode, req, U, F, ref, false)
 }
 
 // judgeTokens compares the token sequence F of a filtered result with the token sequence U of the unfiltered result
@@ -665,7 +685,7 @@ func checkPDF(d *ldoc, path string, sub []int, mode string, api apiFn) (sig, det
 // on ALL pages; it is used for the selection-independence clause: whether a removable line is removed is a property
 // of the document ("repeats across pages" of the document), so a line that the all-pages result removes everywhere
 // (keeps everywhere) must be removed (kept) in every partial selection as well.
-func judgeTokens(d *ldoc, mode string, req map[int]bool, U, F []string, ref func() ([]string, []string, bool)) (sig, detail, outcome string) {
+func judgeTokens(d *ldoc, mode string, req map[int]bool, U, F []string, ref func() ([]string, []string, bool), orderFree bool) (sig, detail, outcome string) {
 	exp := d.expectations(mode, req)
 	var keys [][]string
 	seen := map[string]bool{}
@@ -688,25 +708,29 @@ func judgeTokens(d *ldoc, mode string, req map[int]bool, U, F []string, ref func
 	// 1. same order, only deletions. Decided on the character sequence without white space: some APIs glue
 	// neighbouring lines without a separator (Analyze renders "- 1 -" + next line as "- 1 -next"), which is not
 	// this property's business but changes token boundaries when a line disappears.
-	if !isSubseq(chars(F), chars(U)) {
-		return "not-subsequence", "the filtered output (white space ignored) is not a subsequence of the unfiltered one\n" + show(), ""
+	// orderFree (per-page loop of part A only): the order clause is decided exactly, by fragment id, on the
+	// FilterFragments results; the layout analysis that follows may legitimately order a different fragment set
+	// differently (column detection), so only the per-line counts are judged there.
+	// The order verdict is reported AFTER the count clauses 2-4: when a wrong set of lines survives, the layout
+	// analysis may also order the survivors differently, and the cause (which lines) is the stable signature.
+	notSub := !orderFree && !isSubseq(chars(F), chars(U))
+	uLines, okU, _ := segment(U, keys)
+	fLines, okF, at := segment(F, keys)
+	if !okU || !okF {
+		if notSub {
+			return "not-subsequence", "the filtered output (white space ignored) is not a subsequence of the unfiltered one\n" + show(), ""
+		}
+		if !okU || (!orderFree && !isSubseq(F, U)) {
+			// The API itself rewrites some line (ToMarkdown turns a leading number into list markup, ...): that is not
+			// this property's business. Fall back to the token-level form of clauses 2-4.
+			return checkTokens(d, exp, keys, U, F, anyMay, show)
+		}
+		return "line-partially-deleted", fmt.Sprintf("the filtered output is not the unfiltered output minus whole lines (token %d)\n%s", at, show()), ""
 	}
-	uLines, ok, _ := segment(U, keys)
-	if !ok || !isSubseq(F, U) {
-		// The API itself rewrites some line (ToMarkdown turns a leading number into list markup, ...): that is not
-		// this property's business. Fall back to the token-level form of clauses 2-4.
-		return checkTokens(d, exp, keys, U, F, anyMay, show)
-	}
-	cU := map[string]int{}
+	cU, cF := map[string]int{}, map[string]int{}
 	for _, l := range uLines {
 		cU[l]++
 	}
-	// ... of whole lines
-	fLines, ok, at := segment(F, keys)
-	if !ok || !isSubseq(fLines, uLines) {
-		return "line-partially-deleted", fmt.Sprintf("the filtered output is not the unfiltered output minus whole lines (token %d)\n%s", at, show()), ""
-	}
-	cF := map[string]int{}
 	for _, l := range fLines {
 		cF[l]++
 	}
@@ -805,7 +829,7 @@ func judgeTokens(d *ldoc, mode string, req map[int]bool, U, F []string, ref func
 			flag(stem, x.class, fmt.Sprintf("line %q (class %s): %d of %d instances deleted, %d removable", t, x.class, del, cU[t], may))
 		}
 		if del < must {
-			flag("kept-"+mustName(x.mustClass), x.mustClass, fmt.Sprintf("line %q: %d of %d instances deleted, %d have to go", t, del, cU[t], must))
+			flag(keptStem, x.mustClass, mustName(x.mustClass)+": "+fmt.Sprintf("line %q: %d of %d instances deleted, %d have to go", t, del, cU[t], must))
 		}
 		// selection independence: every instance of this text is removable but none is required; the all-pages
 		// result treats all its instances alike -> the partial selection has to treat them the same way
@@ -833,6 +857,12 @@ func judgeTokens(d *ldoc, mode string, req map[int]bool, U, F []string, ref func
 	}
 	if len(bad) > 0 {
 		return badSig(bad), strings.Join(notes, "\n") + "\n" + show(), ""
+	}
+	if notSub {
+		return "not-subsequence", "the filtered output (white space ignored) is not a subsequence of the unfiltered one\n" + show(), ""
+	}
+	if !orderFree && !isSubseq(fLines, uLines) {
+		return "not-subsequence", "the filtered output holds the surviving lines in another order than the unfiltered output\n" + show(), ""
 	}
 	kind := "pdf"
 	if partial {
@@ -907,7 +937,7 @@ func checkTokens(d *ldoc, exp map[string]*expect, keys [][]string, U, F []string
 			flag(stem, o.class, fmt.Sprintf("token %q (line class %s): count dropped by %d, %d removable instances", t, o.class, del, o.may))
 		}
 		if cU[t] >= o.n && del < o.must {
-			flag("kept-"+mustName(o.mustClass), o.mustClass, fmt.Sprintf("token %q: count dropped by %d, %d instances have to go", t, del, o.must))
+			flag(keptStem, o.mustClass, mustName(o.mustClass)+": "+fmt.Sprintf("token %q: count dropped by %d, %d instances have to go", t, del, o.must))
 		}
 		if del > 0 && del <= o.may {
 			removed[o.mayClass] = true
